@@ -406,6 +406,32 @@ def run_plain(prog, items, env=None, snap=None):
     return subscribe(rx.from_(items).pipe(*ops_) if ops_ else rx.from_(items), snap or Snap())
 
 
+def run_driven(prog, items, mode='mux', env=None):
+    """Subject-driven run: the cursor holds the index of the item being pushed (len(items) while the
+    source completes); the Snap records it for every output (snap.pos)."""
+    from rx.subject import Subject
+    from .common import Snap
+    cursor = [None]
+    snap = Snap(cursor)
+    subj = Subject()
+    ops_ = build(prog, env)
+    if mode == 'mux':
+        obs = subj.pipe(rs.state.with_memory_store(ops_))
+    else:
+        obs = subj.pipe(*ops_) if ops_ else subj
+    try:
+        obs.subscribe(on_next=snap.on_next, on_error=snap.on_error, on_completed=snap.on_completed)
+        for j, x in enumerate(items):
+            cursor[0] = j
+            subj.on_next(x)
+        cursor[0] = len(items)
+        subj.on_completed()
+    except Exception as e:          # noqa: BLE001
+        if snap.err is None:
+            snap.err = e
+    return snap
+
+
 # ---------------------------------------------------------------------------
 # introspection helpers
 
